@@ -151,7 +151,7 @@ REACH = ["treecollectionmodel:SplitDistribution.count_splits_on_tree",
          "treesum:TreeSummarizer.summarize_edge_lengths_on_tree",
          "treesum:TreeSummarizer.summarize_node_ages_on_tree"]
 # (quick, thorough) minima: roughly 45 % of the counts of clean runs
-MIN_EVENTS = {
+MIN_EVENTS = {"rejected-tree-skipped-by-the-caller": (40, 400), 
     "lockstep-advance": (32000, 900000),
     "freq-checked": (190000, 3700000),
     "absent-split-checked": (48000, 720000),
@@ -589,6 +589,24 @@ def query_bundle(ctx, mon, rng, sd, ta, specs, ns, rooted, lengths_ok, ages_ok, 
         drive(ctx, mon, "restore_tree", ta.restore_tree, rng.randrange(len(ta)), summarize_splits_on_tree=True, **kw)
 
 
+def offer_rejected_tree(ctx, mon, rng, op, fn, t, **kw):
+    """a collection that tracks node ages is offered a NON-ultrametric copy of ``t``; the documented refusal must leave the
+    collection a summary of the accepted trees only.  True = carry on."""
+    import dendropy
+    bad = dendropy.Tree(t)
+    leaves = [nd for nd in bad.leaf_node_iter()]
+    lf = rng.choice(leaves)
+    lf.edge.length = (lf.edge.length or 0) + 1.0 + rng.random()
+    ok, res = drive(ctx, mon, op, fn, bad, **kw)
+    if ok:
+        ctx.note("non-ultrametric-tree-accepted-by-a-collection-tracking-ages")
+        return True
+    if mon.was_documented_rejection(res):
+        ctx.ev("rejected-tree-skipped-by-the-caller")
+        return True
+    return False
+
+
 def add_to_array(ctx, mon, rng, ta, t):
     """one accession through a random route of the TreeArray interface."""
     upd = rng.random() < 0.2
@@ -714,6 +732,9 @@ def run_lock(case, ctx, rng):
                     t.encode_bipartitions()
                 if not drive(ctx, mon, "count_splits_on_tree", sd.count_splits_on_tree, t, is_bipartitions_updated=upd)[0]:
                     return
+                if ages and rng.random() < 0.2:
+                    if not offer_rejected_tree(ctx, mon, rng, "count_splits_on_tree", sd.count_splits_on_tree, t):
+                        return
                 if i and rng.random() < 0.12:
                     # object history: a tree that has been encoded and counted is changed in place and counted
                     # again (as a further member of the multiset) with the default is_bipartitions_updated=False
@@ -733,6 +754,9 @@ def run_lock(case, ctx, rng):
             for i, t in enumerate(trees):
                 if not add_to_array(ctx, mon, rng, ta, t):
                     return
+                if ages and rng.random() < 0.2:
+                    if not offer_rejected_tree(ctx, mon, rng, "TreeArray.add_tree", rng.choice([ta.add_tree, ta.append]), t):
+                        return
                 if i and rng.random() < 0.12:
                     old = trees[rng.randrange(i)]
                     mutate_in_place(old, rng, keep_depths=ages)
